@@ -193,6 +193,10 @@ def rename_genes(model: "Model", rename_dict: Dict[str, str]) -> None:
     model.repair()
 
     for i in remove_genes:
+        if i._reaction:
+            # The rules still name this gene: a value of rename_dict is also one
+            # of its keys (a swap or a chain), so the gene has to stay.
+            continue
         model.genes.remove(i)
         i._model = None
         if context:
